@@ -16,6 +16,7 @@ import (
 
 	"github.com/coreruleset/crs-toolchain/v2/context"
 	"github.com/coreruleset/crs-toolchain/v2/regex"
+	"github.com/coreruleset/crs-toolchain/v2/utils"
 )
 
 var logger = log.With().Str("component", "renumber-tests").Logger()
@@ -106,7 +107,7 @@ func (t *TestRenumberer) processFile(filePath string, checkOnly bool, gitHubOutp
 }
 
 func (t *TestRenumberer) processYaml(ruleId string, contents []byte) ([]byte, error) {
-	scanner := bufio.NewScanner(bytes.NewReader(contents))
+	scanner := utils.NewLineScanner(bytes.NewReader(contents))
 	scanner.Split(bufio.ScanLines)
 	output := new(bytes.Buffer)
 	writer := bufio.NewWriter(output)
